@@ -35,14 +35,18 @@ def run_for(prop, repo, tier):
         return dict(harnesses=[], failed=[])
     # one cache entry per (sources of the tree, harness texts, harness name): the scratch crate always gets every harness file, so
     # the build is the same whichever property asks
-    srcs = "".join(open(os.path.join(repo, "src", f)).read() for f in sorted(os.listdir(os.path.join(repo, "src"))) if f.endswith(".rs"))
-    htxt = "".join(open(os.path.join(KANI_DIR, f)).read() for f in sorted(TARGET))
-    base = hashlib.sha256((srcs + htxt).encode()).hexdigest()[:20]
+    # the code a harness can reach lies in the file it is appended to plus lib.rs (trim_cr); the policy harnesses reach policy.rs only
+    def key_of(hf):
+        deps = {"trim_cr.rs": ["lib.rs"], "policy.rs": ["policy.rs"], "fastq_acc.rs": ["lib.rs", "fastq.rs"], "fasta_acc.rs": ["lib.rs", "fasta.rs"]}[hf]
+        txt = "".join(open(os.path.join(repo, "src", f)).read() for f in deps) + open(os.path.join(KANI_DIR, hf)).read()
+        return hashlib.sha256(txt.encode()).hexdigest()[:20]
     os.makedirs(CACHE, exist_ok=True)
     names = sorted({h[1] for h in hs})
+    file_of = {h[1]: h[0] for h in hs}
     results, missing, cached = {}, [], True
+    cpath = {nm: os.path.join(CACHE, "kani_%s_%s.json" % (key_of(file_of[nm]), nm)) for nm in names}
     for nm in names:
-        cp = os.path.join(CACHE, "kani_%s_%s.json" % (base, nm))
+        cp = cpath[nm]
         if os.path.exists(cp):
             results[nm] = json.load(open(cp))
         else:
@@ -91,7 +95,7 @@ def run_for(prop, repo, tier):
             if m:
                 results[name]["time_s"] = float(m.group(1))
             if ok or failed:
-                json.dump(results[name], open(os.path.join(CACHE, "kani_%s_%s.json" % (base, name)), "w"))
+                json.dump(results[name], open(cpath[name], "w"))
         res = dict(results=results, wall_s=round(time.time() - t0, 1), cache_hit=False, kani_version=kv)
         return select(res, hs)
     finally:
